@@ -212,7 +212,7 @@ def finish(pid, level, tier, res, rule, assumptions, replay_fn, t0, *, exhaustiv
     }
     if res.harness_errors:
         ev["coverage"]["harness_errors"] = res.harness_errors[:5]
-    if write_evidence:
+    if write_evidence and not os.environ.get("VERIF_NO_EVIDENCE"):
         os.makedirs(os.path.join(env.VERIF, "evidence"), exist_ok=True)
         with open(os.path.join(env.VERIF, "evidence", pid + ".json"), "w") as f:
             json.dump(ev, f, indent=1, default=str)
